@@ -127,12 +127,6 @@ theorem sc_validate {s pw c c'} (h : stageCore s pw c .validate = .ok c') : c' =
     | ok u => simp [hv, bind, Except.bind, pure, Except.pure] at h; exact h.symm
   · simp [pure, Except.pure] at h; exact h.symm
 
-theorem sc_print {s pw c c'} (h : stageCore s pw c .printConfig = .ok c') : c' = c := by
-  simp [stageCore, pure, Except.pure] at h; exact h.symm
-
-theorem sc_write {s pw c c'} (h : stageCore s pw c .writeKey = .ok c') : c' = c := by
-  simp [stageCore, pure, Except.pure] at h; exact h.symm
-
 theorem sc_password {s pw c c'} (h : stageCore s pw c .passwordCheck = .ok c') : c' = c ∧ pw = true := by
   simp only [stageCore] at h
   split at h
@@ -217,16 +211,13 @@ def Went (s : Option Settings) (pw : Bool) (st : St) : Prop :=
 theorem accepted_went (s : Option Settings) (pw : Bool) (st : St)
     (h : runStages s pw canonicalStages {} = (st, none)) : Went s pw st := by
   unfold canonicalStages at h
-  -- validate, makeConfig, printConfig, instantiateConfig
+  -- validate, makeConfig, instantiateConfig
   rcases runStages_cons_ok _ _ _ _ _ _ _ h with ⟨hc, _⟩ | ⟨_, c1, h1, h⟩
   · simp at hc
   have e1 := sc_validate h1; subst e1
   rcases runStages_cons_ok _ _ _ _ _ _ _ h with ⟨hc, _⟩ | ⟨_, c2, h2, h⟩
   · simp at hc
   obtain ⟨cfg, hcfg, e2⟩ := sc_makeConfig h2; subst e2
-  rcases runStages_cons_ok _ _ _ _ _ _ _ h with ⟨hc, _⟩ | ⟨_, c3, h3, h⟩
-  · simp at hc
-  have e3 := sc_print h3; subst e3
   rcases runStages_cons_ok _ _ _ _ _ _ _ h with ⟨hc, _⟩ | ⟨_, c4, h4, h⟩
   · simp at hc
   obtain ⟨cfg', props, hc', hprops, e4⟩ := sc_instantiate h4; subst e4
@@ -234,12 +225,9 @@ theorem accepted_went (s : Option Settings) (pw : Bool) (st : St)
   refine ⟨cfg, props, hcfg, hprops, ?_⟩
   cases hci : props.cipher with
   | none =>
-    -- the five statements inside `if props.encrypted:` are skipped
+    -- the four statements inside `if props.encrypted:` are skipped
     have henc : ∀ (pu : List String) , St.encrypted ⟨{ config := some cfg, props := some props }, pu⟩ = false := by
       intro pu; simp [St.encrypted, St.props, hci]
-    rcases runStages_cons_ok _ _ _ _ _ _ _ h with ⟨_, h⟩ | ⟨hc, _⟩
-    rotate_left
-    · simp [henc] at hc
     rcases runStages_cons_ok _ _ _ _ _ _ _ h with ⟨_, h⟩ | ⟨hc, _⟩
     rotate_left
     · simp [henc] at hc
@@ -282,10 +270,7 @@ theorem accepted_went (s : Option Settings) (pw : Bool) (st : St)
     obtain ⟨p8, ci8, hp8, hci8, hencr, e8⟩ := sc_encryptPrivate h8; subst e8
     simp at hp8; subst hp8
     rw [hci] at hci8; cases hci8
-    -- writeKey, uploadConfig
-    rcases runStages_cons_ok _ _ _ _ _ _ _ h with ⟨hc, _⟩ | ⟨_, c9, h9, h⟩
-    · simp [henc] at hc
-    have e9 := sc_write h9; subst e9
+    -- uploadConfig
     rcases runStages_cons_ok _ _ _ _ _ _ _ h with ⟨hc, _⟩ | ⟨_, c10, h10, h⟩
     · simp at hc
     have e10 := sc_upload h10; subst e10
@@ -602,5 +587,106 @@ theorem instantiateConfig_cipher (cfg : Config) (props : Props) (h : instantiate
   · rename_i x4 row args hcfg x5 c hc
     cases hci
     exact Or.inr ⟨row, args, c, hcfg, hc, rfl⟩
+
+/-! ## what validation leaves in the settings -/
+
+theorem lookup_mem {β : Type} (k : String) (l : List (String × β)) (v : β) (h : l.lookup k = some v) : ∃ p ∈ l, p.1 = k := by
+  induction l with
+  | nil => simp [List.lookup] at h
+  | cons p rest ih =>
+    obtain ⟨k', v'⟩ := p
+    simp only [List.lookup] at h
+    split at h
+    · rename_i heq
+      exact ⟨(k', v'), List.mem_cons_self, by simpa using (beq_iff_eq.mp heq).symm⟩
+    · obtain ⟨q, hq, hqk⟩ := ih h
+      exact ⟨q, List.mem_cons_of_mem _ hq, hqk⟩
+
+/-- `_validate_settings` passed ⇒ every key of the object is a key of the schema -/
+theorem validateShape_keys (schema : List (String × List String)) (obj : List (String × Shape)) (h : validateShape schema obj = .ok ())
+    (p : String × Shape) (hp : p ∈ obj) : ∃ q ∈ schema, q.1 = p.1 := by
+  unfold validateShape at h
+  split at h
+  · cases h
+  · rename_i hno
+    have h1 : (obj.any fun p => !schema.any fun q => q.1 == p.1) = false := by simpa using hno
+    rw [List.any_eq_false] at h1
+    have h2 := h1 p hp
+    simp only [Bool.not_eq_true, Bool.not_eq_false', List.any_eq_true] at h2
+    obtain ⟨q, hq, hqp⟩ := h2
+    exact ⟨q, hq, by simpa using hqp⟩
+
+/-- validated init settings carry no `encryption.*` key outside the schema: `encryption.mac` / `encryption.shared_kdf`, which
+`_make_key` would read, are unreachable -/
+theorem validated_encryption_keys (s : Settings) (h : validateInit s = .ok ()) (enc : List (String × V2))
+    (he : encryptionSettings s = .ok (some enc)) (k : String) (v : V2) (hk : enc.lookup k = some v) :
+    ∃ q ∈ initEncryptionSchema, q.1 = k := by
+  unfold validateInit at h
+  cases h1 : validateShape initSchema (s.map fun p => (p.1, p.2.shape)) with
+  | error e => simp [h1, bind, Except.bind] at h
+  | ok u =>
+    simp only [h1, bind, Except.bind] at h
+    unfold encryptionSettings at he
+    split at h
+    · rename_i hl; simp [hl] at he; cases he; simp [List.lookup] at hk
+    · rename_i hl; simp [hl, pure, Except.pure] at he
+    · rename_i kvs hl
+      simp [hl] at he; cases he
+      obtain ⟨p, hp, hpk⟩ := lookup_mem k _ v hk
+      have hmem : (p.1, p.2.shape) ∈ List.map (fun p => (p.1, p.2.shape)) enc := List.mem_map_of_mem hp
+      obtain ⟨q, hq, hqp⟩ := validateShape_keys _ _ h _ hmem
+      exact ⟨q, hq, by simpa [hpk] using hqp⟩
+    · rename_i hl; cases h
+
+/-! ## the canonical order ends with the upload -/
+
+theorem canonical_split :
+    canonicalStages = (canonicalStages.take 7) ++ [(InitStage.uploadConfig, false)] := by decide
+
+theorem canonical_pre_noUpload : noUpload (canonicalStages.take 7) := by decide
+
+/-! ## key rings -/
+
+/-- invariant of every key ring built by `init` and add-key: each key file is sealed with the user key derived from its
+own KDF parameters, its own salt and the password it was made for -/
+def RingOk {κ : Type} (r : Ring κ) : Prop :=
+  ∀ kp ∈ r.keys, kp.1.sealedWith = ⟨kp.1.kdf, kp.1.salt, kp.2⟩
+
+theorem ringOk_init {κ : Type} (pw : Pw) (kdf : κ) : RingOk (initRing pw kdf) := by
+  intro kp hkp
+  simp [initRing] at hkp
+  subst hkp
+  rfl
+
+theorem ringOk_append {κ : Type} (r : Ring κ) (h : RingOk r) (kdf : κ) (salt : Nat) (pw : Pw) (fam : Nat) (nx : Nat) :
+    RingOk ({ keys := r.keys ++ [(mkKey kdf salt pw fam, pw)], next := nx } : Ring κ) := by
+  intro kp hkp
+  simp only [List.mem_append, List.mem_singleton] at hkp
+  rcases hkp with hkp | hkp
+  · exact h kp hkp
+  · subst hkp; rfl
+
+theorem ringOk_step {κ : Type} [DecidableEq κ] (valid : κ → Bool) (r : Ring κ) (h : RingOk r) (op : KeyOp κ) :
+    RingOk (stepKey valid r op) := by
+  cases op with
+  | independent pw kdf =>
+    simp only [stepKey]
+    split
+    · exact ringOk_append r h _ _ _ _ _
+    · exact h
+  | shared i upw pw kdf =>
+    simp only [stepKey]
+    repeat' split
+    all_goals first | exact h | exact ringOk_append r h _ _ _ _ _
+  | clone i upw kdf =>
+    simp only [stepKey]
+    repeat' split
+    all_goals first | exact h | exact ringOk_append r h _ _ _ _ _
+
+theorem ringOk_run {κ : Type} [DecidableEq κ] (valid : κ → Bool) (ops : List (KeyOp κ)) (r : Ring κ) (h : RingOk r) :
+    RingOk (runKeyOps valid r ops) := by
+  induction ops generalizing r with
+  | nil => exact h
+  | cons op ops ih => exact ih _ (ringOk_step valid r h op)
 
 end Replicat.Settings
